@@ -220,6 +220,8 @@ def alias_battery(seed):
 
 def run(chk):
     prog, base = setup(chk)
+    from .common import state_shape
+    state_shape(chk, prog)
     from .common import api_surface, ELEMENT_API
     api_surface(chk, prog, 'Element', ELEMENT_API, 'an aliasing harness')
     maxn = 3 if chk.tier == "thorough" else 2
